@@ -369,6 +369,16 @@ class SymExec:
             self.write(st, dest, ("zst", "()"))
             snap = (("mutref", 0), ("refv", srcv))
             return {"k": "call", "name": name, "args": snap, "locargs": args, "term": ("zst", "()"), "inlined": True, "ret": ("zst", "()"), "site": site, "dest": dest, "const_copy": (b_ - a_, srcv)}
+        # whole_array.copy_from_slice(&other_array) with equal, type-level lengths: an assignment
+        if name.split("::")[-1] in ("copy_from_slice", "clone_from_slice") and len(args) == 2 and args[0][0] == "ref" and args[0][1][0] in ("local", "field"):
+            n_d = self.loc_array_len(args[0][1])
+            srcv = self.read(st, args[1][1]) if args[1][0] in ("ref", "refv") else args[1]
+            n_s = self.value_array_len(st, args[1])
+            if n_d is not None and n_d == n_s:
+                self.write(st, args[0][1], srcv)
+                dest = self.place_loc(st, t["dest"])
+                self.write(st, dest, ("zst", "()"))
+                return {"k": "call", "name": name, "args": (("mutref", 0), ("refv", srcv)), "locargs": args, "term": ("zst", "()"), "inlined": True, "ret": ("zst", "()"), "site": site, "dest": dest, "const_copy": (n_d, srcv)}
         # Vec / slice / array element access by a plain usize index: a projection of the argument
         if name.endswith("::index_mut") or name.endswith("::index"):
             ra = [self.fb.ty(a["ty"]).s for a in t.get("resolved_args", []) if "ty" in a]
@@ -450,6 +460,49 @@ class SymExec:
                         self.write(st, L, ("after", callterm, i, self.read(st, L)))
         self.write(st, dest, callterm)
         return {"k": "call", "name": name, "args": snap, "locargs": args, "term": callterm, "inlined": False, "ret": callterm, "site": site, "dest": dest}
+
+    def loc_array_len(self, loc):
+        """length of the fixed-size array stored at a location (by type), else None"""
+        ty = self.loc_ty(loc)
+        if ty is not None and ty.k == "array":
+            return ty.len
+        return None
+
+    def loc_ty(self, loc):
+        if loc[0] == "local":
+            return self.body.local_ty(loc[1])
+        if loc[0] == "deref":
+            t = self.term_ty(loc[1])
+            return t.to if t is not None and t.k == "ref" else None
+        if loc[0] == "field":
+            t = self.loc_ty(loc[1])
+            if t is not None and t.k == "adt":
+                fs = self.fb.adt_fields(t.path)
+                if fs and loc[2] < len(fs):
+                    return self.fb.ty(fs[loc[2]]["ty"])
+            if t is not None and t.k == "tuple":
+                es = t.elems
+                return es[loc[2]] if loc[2] < len(es) else None
+        return None
+
+    def term_ty(self, t):
+        if t[0] == "param":
+            return self.body.local_ty(t[1])
+        return None
+
+    def value_array_len(self, st, a):
+        if a[0] == "ref":
+            return self.loc_array_len(a[1])
+        v = a[1] if a[0] == "refv" else a
+        if v[0] == "agg" and v[1] == "array":
+            return len(v[4])
+        if v[0] == "repeat" and isinstance(v[2], int):
+            return v[2]
+        if v[0] == "after":
+            return self.value_array_len(st, ("refv", v[3]))
+        if v[0] == "upd":
+            return self.value_array_len(st, ("refv", v[1]))
+        return None
 
     def exec_block(self, bb, st):
         blk = self.body.blocks[bb]
